@@ -529,10 +529,7 @@ func (p *Program) planFuncUnrename() *renamePlan {
 		if obj == nil {
 			continue
 		}
-		name := id
-		if i := strings.LastIndex(id, "."); i >= 0 {
-			name = id[i+1:]
-		}
+		name := aliasBaseName(id)
 		if name == "" || name == obj.Name() {
 			continue
 		}
@@ -550,4 +547,28 @@ func (p *Program) planFuncUnrename() *renamePlan {
 	}
 	sort.Strings(plan.notes)
 	return plan
+}
+
+// aliasBaseName: the declared name in a recorded function id — "pkg.F", "(*pkg.T).M" and, for an
+// instance of a generic function, "pkg.F[type arguments]" (the argument list is not part of the name).
+func aliasBaseName(id string) string {
+	if strings.HasSuffix(id, "]") {
+		depth := 0
+		for i := len(id) - 1; i >= 0; i-- {
+			switch id[i] {
+			case ']':
+				depth++
+			case '[':
+				depth--
+			}
+			if depth == 0 {
+				id = id[:i]
+				break
+			}
+		}
+	}
+	if i := strings.LastIndex(id, "."); i >= 0 {
+		return id[i+1:]
+	}
+	return id
 }
